@@ -542,6 +542,8 @@ class C07(C01):
         kinds one after the other, from the bytes of the request (decode_read_request) to the last DATA packet; each
         transfer is judged like a directly constructed one (negotiation must not depend on earlier requests)"""
         quick = tier == "quick"
+        import c01_cfg
+        c01_cfg.cfg_checks(tier, rng, report)       # the limits the transfers are created with (Tftp/ServerConfig.v)
         n_seq, n_req, fails = 0, 0, []
         for _ in range(60 if quick else 800):
             # raw configuration values as an administrator may give them (fractional, out of range); TftpServer clamps
